@@ -8,7 +8,7 @@ use std::rc::Rc;
 
 pub static PROP: Prop = Prop {
     id: "C13",
-    rule: "Pipelines = source x adaptor chain x consumer, run 25 per script (zip / chain also with pair-emitting arguments: a map, an enumerate adaptor; consumers include four peekable interleavings of peek / peek_back with forward and backward consumption). Sources: list, tuple, exclusive / inclusive / descending range, ASCII string, map, and a generator that prints `p<i>` on every pull, each of length 0..5 (exhaustive). Adaptors (numeric parameters 0..3): each, keep, skip, take, take_while, step, chain, zip, enumerate, chunks, windows, flatten, intersperse, cycle (always under a later take), reversed, iter. Consumers: to_list, to_tuple, count, sum, product, min, max, min_max, fold, find, position, any, all, last, consume, a for loop, 3-target unpacking, and next/next_back call sequences. All chains of depth <= 2 are enumerated (quick: x every source x a consumer rotated per pipeline; thorough: x every consumer, plus depth 3 over a reduced source set); deeper chains are proptest-sampled. Oracle: (1) the printed result equals a sequence model written in plain Rust on vectors from the core-library docs (errors for chunks/windows/step 0 and reversed on a non-bidirectional chain); (2) laziness: nothing is pulled before the pipeline is consumed, pulls are p0, p1, ... each once and in order, and the number of pulls is at most the model's minimal demand plus the declared look-ahead of the chain; (3) reversed over a bidirectional chain is the forward output backwards; (4) a copy taken after k pulls advances independently of the original. Zip / chain arguments include pair-emitting iterables (map, enumerate); peekable consumers interleave peek / peek_back with forward and backward consumption. Non-trivial: chain depth >= 2, reuse of an exhausted iterator, or a mixed-direction call sequence.",
+    rule: "Pipelines = source x adaptor chain x consumer, run 25 per script (zip / chain also with pair-emitting arguments: a map, an enumerate adaptor; consumers include four peekable interleavings of peek / peek_back with forward and backward consumption). Sources: list, tuple, exclusive / inclusive / descending range, ASCII string, map, and generators (looping over a range, over a list, and over an adaptor chain) that print `p<i>` on every pull, each of length 0..5 (exhaustive). Adaptors (numeric parameters 0..3): each, keep, skip, take, take_while, step, chain, zip, enumerate, chunks, windows, flatten, intersperse, cycle (always under a later take), reversed, iter. Consumers: to_list, to_tuple, count, sum, product, min, max, min_max, fold, find, position, any, all, last, consume, a for loop, 3-target unpacking, and next/next_back call sequences. All chains of depth <= 2 are enumerated (quick: x every source x a consumer rotated per pipeline; thorough: x every consumer, plus depth 3 over a reduced source set); deeper chains are proptest-sampled. Oracle: (1) the printed result equals a sequence model written in plain Rust on vectors from the core-library docs (errors for chunks/windows/step 0 and reversed on a non-bidirectional chain); (2) laziness: nothing is pulled before the pipeline is consumed, pulls are p0, p1, ... each once and in order, and the number of pulls is at most the model's minimal demand plus the declared look-ahead of the chain; (3) reversed over a bidirectional chain is the forward output backwards; (4) a copy taken after k pulls advances independently of the original. Zip / chain arguments include pair-emitting iterables (map, enumerate); peekable consumers interleave peek / peek_back with forward and backward consumption. Non-trivial: chain depth >= 2, reuse of an exhausted iterator, or a mixed-direction call sequence.",
     assumptions: &[
         "look-ahead allowance per adaptor: step k: k-1, intersperse / zip / chain / peekable: 1, windows n: n, chunks n: n",
         "error texts are not compared (only that an error is raised)",
@@ -62,9 +62,11 @@ pub enum SrcK {
     StrLines,
     ObjNext,
     ObjIterator,
+    GenList,
+    GenPipe,
 }
-pub const SOURCES: [SrcK; 14] = [
-    SrcK::List, SrcK::Tuple, SrcK::Range, SrcK::RangeInc, SrcK::RangeDesc, SrcK::Str, SrcK::Map, SrcK::Gen, SrcK::StrChars, SrcK::StrBytes, SrcK::StrSplit, SrcK::StrLines, SrcK::ObjNext, SrcK::ObjIterator,
+pub const SOURCES: [SrcK; 16] = [
+    SrcK::List, SrcK::Tuple, SrcK::Range, SrcK::RangeInc, SrcK::RangeDesc, SrcK::Str, SrcK::Map, SrcK::Gen, SrcK::StrChars, SrcK::StrBytes, SrcK::StrSplit, SrcK::StrLines, SrcK::ObjNext, SrcK::ObjIterator, SrcK::GenList, SrcK::GenPipe,
 ];
 
 #[derive(Clone, Copy, Debug, PartialEq, Eq, Serialize, Deserialize)]
@@ -151,7 +153,7 @@ pub struct Pipe {
 fn source_values(k: SrcK, len: u8) -> Vec<MV> {
     let n = len as i64;
     match k {
-        SrcK::List | SrcK::Tuple | SrcK::Gen | SrcK::ObjNext | SrcK::ObjIterator => (1..=n).map(MV::Int).collect(),
+        SrcK::List | SrcK::Tuple | SrcK::Gen | SrcK::GenList | SrcK::GenPipe | SrcK::ObjNext | SrcK::ObjIterator => (1..=n).map(MV::Int).collect(),
         SrcK::StrChars => "abcde".chars().take(len as usize).map(|c| MV::Str(c.to_string())).collect(),
         SrcK::StrBytes => "abcde".bytes().take(len as usize).map(|b| MV::Int(b as i64)).collect(),
         // 'a,b,c' split by ',' : len+1 pieces... we use len pieces joined by ',' (len 0: '' splits into one empty piece)
@@ -186,6 +188,8 @@ fn source_text(k: SrcK, len: u8) -> String {
         SrcK::Str => format!("'{}'", &"abcde"[..n]),
         SrcK::Map => format!("{{{}}}", "abcde".chars().take(n).enumerate().map(|(i, c)| format!("{c}: {}", i + 1)).collect::<Vec<_>>().join(", ")),
         SrcK::Gen => format!("gen({n})"),
+        SrcK::GenList => format!("genl({n})"),
+        SrcK::GenPipe => format!("genp({n})"),
         SrcK::StrChars => format!("'{}'.chars()", &"abcde"[..n]),
         SrcK::StrBytes => format!("'{}'.bytes()", &"abcde"[..n]),
         SrcK::StrSplit => format!("'{}'.split(',')", "abcde".chars().take(n).map(|c| c.to_string()).collect::<Vec<_>>().join(",")),
@@ -196,7 +200,7 @@ fn source_text(k: SrcK, len: u8) -> String {
 }
 
 fn bidirectional_source(k: SrcK) -> bool {
-    !matches!(k, SrcK::Gen | SrcK::ObjNext | SrcK::StrSplit | SrcK::StrLines | SrcK::StrBytes)
+    !matches!(k, SrcK::Gen | SrcK::GenList | SrcK::GenPipe | SrcK::ObjNext | SrcK::StrSplit | SrcK::StrLines | SrcK::StrBytes)
 }
 
 /// the second source used by chain / zip
@@ -610,7 +614,7 @@ pub fn pipe_script(p: &Pipe, k: usize) -> String {
         _ => "".into(),
     };
     s.push_str("r = try\n");
-    let needs_iter = p.chain.is_empty() && !matches!(p.src, SrcK::Gen | SrcK::StrChars | SrcK::StrBytes | SrcK::StrSplit | SrcK::StrLines) && matches!(p.cons, Cons::Next3 | Cons::NextBackMix | Cons::CopyThenAdvance | Cons::ExhaustReuse);
+    let needs_iter = p.chain.is_empty() && !matches!(p.src, SrcK::Gen | SrcK::GenList | SrcK::GenPipe | SrcK::StrChars | SrcK::StrBytes | SrcK::StrSplit | SrcK::StrLines) && matches!(p.cons, Cons::Next3 | Cons::NextBackMix | Cons::CopyThenAdvance | Cons::ExhaustReuse);
     s.push_str(&format!("  it = {src}{chain_text}{}\n", if needs_iter { ".iter()" } else { "" }));
     s.push_str("  print 'made'\n");
     match p.cons {
@@ -652,7 +656,7 @@ pub fn pipe_script(p: &Pipe, k: usize) -> String {
     s
 }
 
-const PRELUDE: &str = "gen = |n|\n  for i in 0..n\n    print 'p{i}'\n    yield i + 1\nmk_next = |n|\n  i: 0\n  n: n\n  @next: ||\n    if self.i < self.n\n      self.i += 1\n      self.i\n    else\n      null\nmk_iterable = |n|\n  n: n\n  @iterator: || 1..=self.n\n";
+const PRELUDE: &str = "gen = |n|\n  for i in 0..n\n    print 'p{i}'\n    yield i + 1\ngenl = |n|\n  for i in (0..n).to_list()\n    print 'p{i}'\n    yield i + 1\ngenp = |n|\n  for i in (0..n).each(|x| x)\n    print 'p{i}'\n    yield i + 1\nmk_next = |n|\n  i: 0\n  n: n\n  @next: ||\n    if self.i < self.n\n      self.i += 1\n      self.i\n    else\n      null\nmk_iterable = |n|\n  n: n\n  @iterator: || 1..=self.n\n";
 
 pub struct PipeResult {
     pub fail: Option<(String, String)>,
@@ -710,7 +714,7 @@ pub fn eval_batch(pipes: &[Pipe]) -> Vec<PipeResult> {
             }
         }
         // laziness
-        if p.src == SrcK::Gen {
+        if matches!(p.src, SrcK::Gen | SrcK::GenList | SrcK::GenPipe) {
             if let Some(m) = made_at {
                 if sec[..m].iter().any(|l| l.starts_with('p')) {
                     results.push(PipeResult { fail: Some(("eager-pull".into(), format!("source elements were pulled before the pipeline was consumed: {:?}\n{text}", &sec[..m]))), judged: true });
